@@ -1,7 +1,7 @@
 (* C04 — MySQL: emitted DDL is executable in order and leaves the declared schema; every MODIFY keeps the
    column's current type, nullability and default.  Pinned statements only.
    Engine = the MySQL catalog MODEL of Model/Engine.v (modelled, not verified: no server in the sandbox). *)
-From VV.MYSQL Require Import Spec SpecKeys SpecCreate ModifyP WitnessP SimP SimKeysP SimCreateP.
+From VV.MYSQL Require Import Spec SpecKeys SpecCreate SpecFk ModifyP WitnessP SimP SimKeysP SimCreateP SimFkP SimRemoveP SimRenameP SimAllP.
 
 (* ------------------------------------------------------------------------------------------------------
    1. The history-dependent part, for ALL inputs: the MODIFY COLUMN emitted for a ModifyColumn{Type,
@@ -234,8 +234,9 @@ Check C04_composite_member_name_drift :
    3. The simulation Sim s c := c = catalog_of s, carried through build_plan_queries' loop and over histories
       of any length, and the action kinds for which one step is proved (the hypotheses are the decidable
       booleans of Model/Spec.v; their negations are the known-finding classes or violated assumptions).
-      Not yet proved per kind: AddConstraint of a primary / foreign key, RemoveConstraint of a key, RenameTable,
-      RenameColumn — for those the claim rests on the oracle run. *)
+      All 13 action kinds have a one-step lemma; what is NOT covered are the inputs outside their hypotheses: the
+      known-finding classes, and a column added with an inline constraint whose AddConstraint follows later in the
+      same plan (the believed catalog runs ahead of the engine between the two actions). *)
 Theorem C04_Sim_plan : forall acts s s',
   (forall i a, nth_error acts i = Some a -> action_sim (schema_at s acts i) a) ->
   apply_all s acts = Ok s' ->
@@ -269,6 +270,63 @@ Theorem sim_mysql_create_table : forall s a, create_table_sim_hyp s a = true -> 
 Proof. exact sim_create_table. Qed.
 Print Assumptions sim_mysql_create_table.
 Check sim_mysql_create_table : forall s a, create_table_sim_hyp s a = true -> action_sim s a.
+
+(* the same with the FOREIGN KEY clauses under explicit conditions (names new, columns exist, the target exists and
+   has a key whose leftmost columns are the referenced columns — implied by A1) instead of engine acceptance *)
+Theorem sim_mysql_create_table_a1 : forall s a, create_table_a1_hyp s a = true -> action_sim s a.
+Proof. exact sim_create_table_a1. Qed.
+Print Assumptions sim_mysql_create_table_a1.
+Check sim_mysql_create_table_a1 : forall s a, create_table_a1_hyp s a = true -> action_sim s a.
+
+Theorem sim_mysql_add_constraint_fk : forall s a, add_fk_sim_hyp s a = true -> action_sim s a.
+Proof. exact sim_add_fk. Qed.
+Print Assumptions sim_mysql_add_constraint_fk.
+Check sim_mysql_add_constraint_fk : forall s a, add_fk_sim_hyp s a = true -> action_sim s a.
+
+Theorem sim_mysql_add_constraint_pk : forall s a, add_pk_sim_hyp s a = true -> action_sim s a.
+Proof. exact sim_add_pk. Qed.
+Print Assumptions sim_mysql_add_constraint_pk.
+Check sim_mysql_add_constraint_pk : forall s a, add_pk_sim_hyp s a = true -> action_sim s a.
+
+Theorem sim_mysql_remove_constraint_key : forall s a, remove_key_sim_hyp s a = true -> action_sim s a.
+Proof. exact sim_remove_key. Qed.
+Print Assumptions sim_mysql_remove_constraint_key.
+Check sim_mysql_remove_constraint_key : forall s a, remove_key_sim_hyp s a = true -> action_sim s a.
+
+Theorem sim_mysql_remove_constraint_fk : forall s a, remove_fk_sim_hyp s a = true -> action_sim s a.
+Proof. exact sim_remove_fk. Qed.
+Print Assumptions sim_mysql_remove_constraint_fk.
+Check sim_mysql_remove_constraint_fk : forall s a, remove_fk_sim_hyp s a = true -> action_sim s a.
+
+Theorem sim_mysql_remove_constraint_pk : forall s a, remove_pk_sim_hyp s a = true -> action_sim s a.
+Proof. exact sim_remove_pk. Qed.
+Print Assumptions sim_mysql_remove_constraint_pk.
+Check sim_mysql_remove_constraint_pk : forall s a, remove_pk_sim_hyp s a = true -> action_sim s a.
+
+Theorem sim_mysql_rename_table : forall s a, rename_table_sim_hyp s a = true -> action_sim s a.
+Proof. exact sim_rename_table. Qed.
+Print Assumptions sim_mysql_rename_table.
+Check sim_mysql_rename_table : forall s a, rename_table_sim_hyp s a = true -> action_sim s a.
+
+Theorem sim_mysql_rename_column : forall s a, rename_column_sim_hyp s a = true -> action_sim s a.
+Proof. exact sim_rename_column. Qed.
+Print Assumptions sim_mysql_rename_column.
+Check sim_mysql_rename_column : forall s a, rename_column_sim_hyp s a = true -> action_sim s a.
+
+Theorem C04_Sim_history_proved_kinds : forall plans s s',
+  (forall k p sb, nth_error plans k = Some p ->
+                  apply_all s (flat_map p_actions (firstn k plans)) = Ok sb ->
+                  forall i a, nth_error (p_actions p) i = Some a -> sim_proved_for (schema_at sb (p_actions p) i) a = true) ->
+  apply_all s (flat_map p_actions plans) = Ok s' ->
+  run_history (catalog_of s) s plans = Some (catalog_of s').
+Proof. exact Sim_history_proved. Qed.
+Print Assumptions C04_Sim_history_proved_kinds.
+Check C04_Sim_history_proved_kinds : forall plans s s',
+  (forall k p sb, nth_error plans k = Some p ->
+                  apply_all s (flat_map p_actions (firstn k plans)) = Ok sb ->
+                  forall i a, nth_error (p_actions p) i = Some a -> sim_proved_for (schema_at sb (p_actions p) i) a = true) ->
+  apply_all s (flat_map p_actions plans) = Ok s' ->
+  run_history (catalog_of s) s plans = Some (catalog_of s').
 
 Theorem sim_mysql_delete_table : forall s P t s' c,
   Sim s c -> apply_action s (DeleteTable t) = Ok s' -> referenced_by_other s t = false ->
@@ -340,6 +398,20 @@ Example C04_sim_hypotheses_satisfiable :
     (CreateTable "post" [pcol "id" (TSimple Integer) false; pcol "t_id" (TSimple Integer) true; pcol "title" (TVarchar 255) false]
                  [CPrimaryKey true ["id"]; CUnique None ["title"]; CIndex None ["t_id"; "title"];
                   CForeignKey None ["t_id"] "t" ["id"] (Some Cascade) None]) = true /\
+  create_table_a1_hyp ok_modify_schema
+    (CreateTable "post" [pcol "id" (TSimple Integer) false; pcol "t_id" (TSimple Integer) true]
+                 [CPrimaryKey true ["id"]; CForeignKey None ["t_id"] "t" ["id"] (Some Cascade) None]) = true /\
+  add_fk_sim_hyp (ok_modify_schema ++ [mkTable "post" None [pcol "id" (TSimple Integer) false; pcol "t_id" (TSimple Integer) true] [CPrimaryKey false ["id"]]])
+    (AddConstraint "post" (CForeignKey None ["t_id"] "t" ["id"] None None)) = true /\
+  add_pk_sim_hyp [mkTable "u" None [pcol "id" (TSimple Integer) false] []] (AddConstraint "u" (CPrimaryKey false ["id"])) = true /\
+  remove_key_sim_hyp [mkTable "u" None [pcol "id" (TSimple Integer) false; pcol "a" (TSimple Integer) true] [CPrimaryKey false ["id"]; CIndex None ["a"]]]
+    (RemoveConstraint "u" (CIndex None ["a"])) = true /\
+  remove_fk_sim_hyp (ok_modify_schema ++ [mkTable "post" None [pcol "id" (TSimple Integer) false; pcol "t_id" (TSimple Integer) true]
+                                               [CPrimaryKey false ["id"]; CIndex None ["t_id"]; CForeignKey None ["t_id"] "t" ["id"] None None]])
+    (RemoveConstraint "post" (CForeignKey None ["t_id"] "t" ["id"] None None)) = true /\
+  remove_pk_sim_hyp [mkTable "u" None [pcol "id" (TSimple Integer) false] [CPrimaryKey false ["id"]]] (RemoveConstraint "u" (CPrimaryKey false ["id"])) = true /\
+  rename_table_sim_hyp ok_modify_schema (RenameTable "t" "t2") = true /\
+  rename_column_sim_hyp ok_modify_schema (RenameColumn "t" "name" "title") = true /\
   add_check_sim_hyp ok_modify_schema (AddConstraint "t" (CCheck "ck" "id > 0")) = true /\
   add_key_full_hyp ok_modify_schema (AddConstraint "t" (CUnique None ["name"])) = true /\
   remove_check_sim_hyp [mkTable "t" None [pcol "id" (TSimple Integer) false] [CPrimaryKey false ["id"]; CCheck "ck" "id > 0"]]
